@@ -267,7 +267,8 @@ def run_coq_shards(tag, shard_texts, timeout=900):
 
     with cf.ThreadPoolExecutor(NPROC) as ex:
         outs = list(ex.map(one, paths))
-    shutil.rmtree(work, ignore_errors=True)
+    if not os.environ.get("VERIF_KEEP_CASES"):
+        shutil.rmtree(work, ignore_errors=True)
     return [o[0] for o in outs], [o[1] for o in outs]
 
 
